@@ -12,6 +12,7 @@ import (
 	"encoding/json"
 	"fmt"
 	"sort"
+	"sync"
 	"time"
 
 	coreheader "cosmossdk.io/core/header"
@@ -58,8 +59,22 @@ type Actor struct {
 	Priv *ethsecp256k1.PrivKey
 }
 
-func (a Actor) Acc() sdk.AccAddress { return sdk.AccAddress(a.Priv.PubKey().Address()) }
-func (a Actor) Hex() common.Address { return common.BytesToAddress(a.Priv.PubKey().Address()) }
+// addrCache memoises key -> address (deriving the public key is an elliptic-curve multiplication; the harness asks
+// for addresses in every transition)
+var addrCache sync.Map
+
+func (a Actor) addr() []byte {
+	k := string(a.Priv.Key)
+	if v, ok := addrCache.Load(k); ok {
+		return v.([]byte)
+	}
+	b := append([]byte(nil), a.Priv.PubKey().Address()...)
+	addrCache.Store(k, b)
+	return b
+}
+
+func (a Actor) Acc() sdk.AccAddress { return sdk.AccAddress(append([]byte(nil), a.addr()...)) }
+func (a Actor) Hex() common.Address { return common.BytesToAddress(a.addr()) }
 func (a Actor) Bech() string        { return a.Acc().String() }
 
 // NewActor derives a key from a small integer / name (deterministic).
@@ -105,8 +120,8 @@ type World struct {
 	// AfterBegin, if set, runs once inside the next real FinalizeBlock right after the begin-blocker.
 	AfterBegin func(ctx sdk.Context)
 	realTime   time.Time
-	KV   []*storetypes.KVStoreKey // sorted by name
-	real *realDriver              // set in RealMode: the world is inside a real FinalizeBlock
+	KV         []*storetypes.KVStoreKey // sorted by name
+	real       *realDriver              // set in RealMode: the world is inside a real FinalizeBlock
 }
 
 // RealMode makes every world built from now on live inside real blocks: Root is the context of block 2 handed out
@@ -165,7 +180,6 @@ func (w *World) endRealBlock() error {
 func (w *World) Finish() error { return w.endRealBlock() }
 
 var _ = 0
-
 
 var configured bool
 
